@@ -75,6 +75,13 @@ class Concatenator(Transformer):
 
             reindexed_data_list.append(reindexed)
 
+        # Non-index coordinates that only some of the items carry cannot be concatenated
+        common_coords = set.intersection(*[set(d.coords) for d in reindexed_data_list])
+        reindexed_data_list = [
+            d.drop_vars([c for c in d.coords if c not in common_coords])
+            for d in reindexed_data_list
+        ]
+
         X_concat: DataArray = xr.concat(reindexed_data_list, dim=self.feature_name)
         self.coords_out = X_concat.coords[self.feature_name]
 
